@@ -412,6 +412,22 @@ class Ctx:
     rec.fields[name] = value
 
 
+class VConstDict(V):
+  """Dictionary literal with constant string keys (class-level tables)."""
+  kind = 'constdict'
+
+  def __init__(self, d):
+    self.d = d
+
+  def py_getitem(self, ex, idx, node):
+    if not isinstance(idx, VStr):
+      ex.unsupported(node, 'constant dict indexed by %s' % idx.kind)
+    if idx.s not in self.d:
+      ex.safety(z3.BoolVal(False), 'KeyError', node, 'key %r' % idx.s)
+      raise PathEnd('key error')
+    return self.d[idx.s]
+
+
 class VEmptyDict(V):
   """The literal {} before its shape is known."""
   kind = 'emptydict'
@@ -419,6 +435,14 @@ class VEmptyDict(V):
 
 def conform(ctx, v, shape):
   """Coerce a value to a declared shape (wrap into Optional, int->real)."""
+  if type(shape).__name__ == 'TDyn':
+    from mmverif.engine import dyn
+    if isinstance(v, dyn.VDyn):
+      return v
+    if isinstance(v, VTuple) and len(v.items) == 2:
+      return dyn.VDyn(dyn.Dyn.tup2(dyn.scalar_of(v.items[0]),
+                                   dyn.scalar_of(v.items[1])))
+    return dyn.VDyn(dyn.Dyn.sc(dyn.scalar_of(v)))
   if isinstance(v, VEmptyDict):
     if hasattr(shape, 'empty'):
       return shape.empty(ctx)
@@ -515,6 +539,8 @@ class Exec:
   def __init__(self, ctx):
     self.ctx = ctx
     self.world = WORLD
+    self._fmode = getattr(getattr(ctx.unit, 'modspec', None), 'float_mode',
+                          'R')
 
   # ------------------------------------------------------------ helpers
   def unsupported(self, node, what=''):
@@ -606,10 +632,17 @@ class Exec:
     if isinstance(v, int):
       return VInt(v)
     if isinstance(v, float):
+      if self.float_mode(env) == 'F':
+        from mmverif.engine import dyn
+        return dyn.VFP(v)
       return VReal(v)
     if isinstance(v, str):
       return VStr(v)
     self.unsupported(node, 'constant %r' % (v,))
+
+  def float_mode(self, env):
+    sp = self.world.spec(env.module.name) if env is not None else None
+    return sp.float_mode if sp is not None else 'R'
 
   def eval_Name(self, node, env):
     return self.lookup_name(node.id, env, node)
@@ -635,6 +668,8 @@ class Exec:
     vals = [self.eval(v, env) for v in node.values]
     if not keys:
       return VEmptyDict()
+    if all(isinstance(k, VStr) for k in keys):
+      return VConstDict({k.s: v for k, v in zip(keys, vals)})
     return dict_from_items(self, keys, vals, node)
 
   def eval_Attribute(self, node, env):
@@ -839,6 +874,9 @@ class Exec:
   def compare(self, op, a, b, node):
     if hasattr(a, 'py_compare') and not isinstance(op, (ast.Is, ast.IsNot)):
       return a.py_compare(self, op, b, node)
+    if a.kind in ('dyn', 'scalar', 'fp') or b.kind in ('dyn', 'scalar', 'fp'):
+      from mmverif.engine import dyn
+      return dyn.hook_compare(self, op, a, b, node)
     if isinstance(op, (ast.Is, ast.IsNot)):
       if isinstance(b, VNone):
         t = is_none_term(a)
@@ -1024,7 +1062,7 @@ class Exec:
         self.unsupported(node, '**kwargs')
       kwargs[k.arg] = self.eval_arg(k.value, env)
     c = self.ctx.unit.contract
-    if c is not None and c.at_calls and env.qualname == c.qualname:
+    if c is not None and c.at_calls and env.qualname == c.fn_qualname:
       key = ast.unparse(node.func)
       if key in c.at_calls:
         from mmverif.engine import loops as loopmod
@@ -1144,6 +1182,17 @@ class Exec:
     denv = Env(src, cs)
     bound = self.bind_params(fdef, self_obj, args, kwargs, denv, node,
                              is_static)
+    if sp is not None and qualname in getattr(sp, 'variants', {}):
+      contract = None
+      for c in sp.variants[qualname]:
+        if all(const_equal(bound.get(k), v) for k, v in c.const_args.items()):
+          contract = c
+          break
+      if contract is None:
+        self.unsupported(node, 'no contract variant of %s for these constant '
+                         'arguments' % qualname)
+    if contract is not None and getattr(contract, 'impl', None) is not None:
+      return contract.impl(self, bound, node)
     if contract is not None and not (sp and qualname in sp.inline):
       return self.call_by_contract(contract, bound, node, modname,
                                    ghost=getattr(self, '_ghost', False))
@@ -1428,13 +1477,18 @@ class Exec:
 
   def local_shape(self, env, name):
     c = self.ctx.unit.contract
-    if c is not None and env.qualname == c.qualname:
+    if c is not None and env.qualname == c.fn_qualname:
       return c.locals_shapes.get(name)
     return None
 
   def unpack(self, t, v, env, node):
     v = self.need_not_none(v, node, 'unpacked value') if isinstance(
         v, (VOpt, VNone)) else v
+    if v.kind == 'dyn':
+      from mmverif.engine import dyn
+      self.safety(dyn.Dyn.is_tup2(v.t) if len(t.elts) == 2 else
+                  z3.BoolVal(False), 'TypeError', node, 'unpack of a non-pair')
+      v = VTuple([dyn.VScalar(dyn.Dyn.fst(v.t)), dyn.VScalar(dyn.Dyn.snd(v.t))])
     if not isinstance(v, VTuple):
       if isinstance(v, VOpaque):
         v = self.lib_call('opaque.unpack', [v, VInt(len(t.elts))], {}, node)
@@ -1560,7 +1614,7 @@ class Exec:
   def find_loop_spec(self, node, env):
     c = self.ctx.unit.contract
     specs_ = None
-    if c is not None and env.qualname == c.qualname:
+    if c is not None and env.qualname == c.fn_qualname:
       specs_ = c.loops
     else:
       sp = self.world.spec(env.module.name)
@@ -1609,6 +1663,20 @@ class Exec:
 
 # ----------------------------------------------------------------------------
 # small helpers shared with lib.py
+
+
+def const_equal(a, b):
+  """Structural equality of constant argument values (contract variants)."""
+  if a is None or b is None:
+    return False
+  if isinstance(a, VStr) and isinstance(b, VStr):
+    return a.s == b.s
+  if isinstance(a, VTuple) and isinstance(b, VTuple):
+    return len(a.items) == len(b.items) and all(
+        const_equal(x, y) for x, y in zip(a.items, b.items))
+  if type(a) is type(b) and hasattr(a, 't') and hasattr(b, 't'):
+    return z3.simplify(a.t).eq(z3.simplify(b.t))
+  return False
 
 
 def elem_term(v, esort):
